@@ -34,6 +34,9 @@ def out_dir():
 
 
 # ----------------------------------------------------------------------------- base check
+VERIF_DIR = os.path.dirname(os.path.dirname(os.path.abspath(__file__))) + os.sep
+
+
 class Check:
     """One property.  Subclasses provide gen() and the oracle hooks."""
 
@@ -142,6 +145,19 @@ class Check:
             except Abandon as a:
                 res.update(status="abandoned", message=a.reason, tag=a.other_property, step_index=i)
                 log.append([i, "ABANDON", a.reason])
+            except HarnessError:
+                raise
+            except Exception as e:
+                # An exception that the code under test raised while the harness was merely *observing* (listing
+                # buckets, dumping events) is some other property's defect, not a fault of the harness: the run
+                # is abandoned (counted in the evidence; a batch that is mostly abandoned is vacuous -> exit 2).
+                frames = traceback.extract_tb(e.__traceback__)
+                last_h = max((k for k, f in enumerate(frames) if f.filename.startswith(VERIF_DIR)), default=-1)
+                if not any(f.filename.startswith(seams.REPO + os.sep) for f in frames[last_h + 1 :]):
+                    raise
+                reason = "the store raised %s during a harness observation" % type(e).__name__
+                res.update(status="abandoned", message=reason, tag=None, step_index=i)
+                log.append([i, "ABANDON", reason])
             if i < 0:
                 # failed or abandoned before the first step: per-run oracle state may not exist yet
                 res["nontrivial"] = False
